@@ -91,7 +91,7 @@ struct pool_assignment {
 	__u32 allocated_ip;     /* Currently assigned IP (host-order number, as IPToUint32 writes it) */
 	__u32 vlan_id;          /* VLAN tag for subscriber (deprecated, use s_tag/c_tag) */
 	__u8  client_class;     /* Residential=1, Business=2, etc. */
-	__u64 lease_expiry;     /* Unix timestamp (seconds) */
+	__u64 lease_expiry;     /* Expiry in seconds on the bpf_ktime_get_ns() clock (since boot) */
 	__u8  flags;            /* Static IP flag, etc. */
 	__u8  _pad[3];          /* Padding for alignment */
 } __attribute__((packed));
